@@ -12,13 +12,15 @@ For EVERY byte string `s` (no length bound) and both `htmlSafe` settings:
 * `quoted_value` / `quoted_key`: if the writer keeps the quotes, the parser reads `[<text>]` as the array
   with the one string `sanitize s` and `{<text>:1}` as the object with the one key `sanitize s` — never a
   number, bool, null, sign, comment or error (`sanitize` = invalid UTF-8 bytes replaced by U+FFFD);
-* `C10_value_partial` / `C10_key_partial`: the same for every string, quoted or bare, outside three
-  named input classes: the reserved words `true false null` (value position only), a leading `+`/`-`
-  on a bare string, and a bare string containing `&`, backtick or `|`;
-* `C10_string_full_false`: without the exclusions the statement is FALSE on this tree: the witnesses
-  (`"true"` comes back as `true`, `"-1"` as -1, `"a&b"` is an error) are evaluated by the kernel; they
-  are the known findings C10-reserved-word, C10-leading-sign (the suite pins the bare spellings) and
-  C10-bare-nontoken-byte (proposed fix: three `senMap` cells).
+* `C10_value_partial` / `C10_key_partial`: the same for every string, quoted or bare, outside two
+  named input classes: the reserved words `true false null` (value position only) and a leading `+`/`-`
+  on a bare string;
+* `C10_string_full_false*`: without the exclusions the statement is FALSE on this tree: the witnesses
+  (`"true"` comes back as `true`, `"-1"` as -1, the key `"-"` is an error) are evaluated by the kernel;
+  they are the known findings C10-reserved-word and C10-leading-sign (the suite pins the bare spellings);
+* `C10_nontoken_before`: BEFORE 9fd0aeb a third class failed — bare strings with `&`, backtick or `|`
+  (`"a&b"` was written `a&b`, which the parser rejects); the repair (two `senMap` cells, one branch) is
+  what makes `Sen.bare_tokenOk` hold without exclusion, so undoing it breaks that proof.
 
 Trees (sen.String/Bytes/Write and pretty.SEN under every option) are decided by the correspondence
 run: the tight writer and the parser machine are modelled (`Sen.tightVal`, `Sen.run`) and compared with
@@ -44,10 +46,6 @@ def reservedWord (s : Bytes) : Prop :=
 /-- written bare although it begins with a sign -/
 def leadingSign (s : Bytes) (html : Bool) : Prop :=
   senQuoted s html = false ∧ (s.head? = some 43 ∨ s.head? = some 45)
-
-/-- written bare although it contains a byte no parser token has -/
-def nonTokenByte (s : Bytes) (html : Bool) : Prop :=
-  senQuoted s html = false ∧ (38 ∈ s ∨ 96 ∈ s ∨ 124 ∈ s)
 
 /-! ## the context around the string: single steps over the reference tables -/
 
@@ -141,7 +139,7 @@ theorem parsesTo_of_run (doc : Bytes) (v : JV) (b0 : UInt8) (t : Bytes) (hdoc : 
     split
     · rename_i heq; simp only [List.cons.injEq] at heq; exact absurd heq.1 hb
     · rfl
-  have hentry : (({} : St).entry) = {} := rfl
+  have hentry : (St.entry ({} : Cfg) ({} : St)) = {} := rfl
   have hr' : runBytes refTables {} {} {} { ({} : Pos) with off := 0 } doc = .ok (st, f, p) := hr
   simp [run, call, hbom, hentry, runChunks, hr', ho]
 
@@ -165,7 +163,7 @@ theorem quoteEnd_arr (st : St) (f : Fast) (l : Bool) (hm : st.mode = .string) (h
     (hs : st.starts = [some 0]) (hp : st.plus = false) (hf : f.nlSkipping = false) :
     step refTables {} st f 34 l =
       .ok ({ st with mode := .value, stack := .val (.str st.tmp.reverse) :: st.stack }, fS f, false) := by
-  rw [step_quoteEnd {} rfl st f l hm hq hf]
+  rw [step_quoteEnd {} rfl rfl st f l hm hq hf]
   simp [St.addStringP, deliver, hs, hp]
 
 /-- the closing quote of the first member name of an object -/
@@ -173,7 +171,7 @@ theorem quoteEnd_key (st : St) (f : Fast) (l : Bool) (hm : st.mode = .string) (h
     (hs : st.starts = [none]) (hk : st.stack = [.obj []]) (hp : st.plus = false) (hf : f.nlSkipping = false) :
     step refTables {} st f 34 l =
       .ok ({ st with mode := .colon, stack := [.key st.tmp.reverse, .obj []] }, fS f, false) := by
-  rw [step_quoteEnd {} rfl st f l hm hq hf]
+  rw [step_quoteEnd {} rfl rfl st f l hm hq hf]
   simp [St.addStringP, topIsKey, deliver, hs, hk, hp]
 
 /-- **a quoted string in value position comes back as the (sanitised) string** — for every byte string -/
@@ -230,29 +228,25 @@ theorem bare_facts (s : Bytes) (html : Bool) (hne : s ≠ []) (hq : senQuoted s 
 /-- the run over a bare string from value mode: the machine stands in token mode with the string pending
 and the token still inside the current buffer -/
 theorem bare_run (s : Bytes) (html : Bool) (st : St) (f : Fast) (p : Pos) (rest : Bytes) (hm : st.mode = .value)
-    (hne : s ≠ []) (hq : senQuoted s html = false)
-    (h2 : ¬ leadingSign s html) (h3 : ¬ nonTokenByte s html) :
+    (hne : s ≠ []) (hq : senQuoted s html = false) (h2 : ¬ leadingSign s html) :
     ∃ p', runBytes refTables {} st f p (senString s html ++ rest) =
       runBytes refTables {} { st with mode := .token, tmp := s.reverse }
         { inFast := false, tokFast := true, nlSkipping := false } p' rest := by
   obtain ⟨hs, _, hb, b, t, rfl, hc⟩ := bare_facts s html hne hq
-  have n38 : ∀ x ∈ b :: t, x ≠ 38 ∧ x ≠ 96 ∧ x ≠ 124 := by
-    intro x hx
-    refine ⟨?_, ?_, ?_⟩ <;> intro e <;> subst e <;> apply h3 <;> refine ⟨hq, ?_⟩
-    · exact Or.inl hx
-    · exact Or.inr (Or.inl hx)
-    · exact Or.inr (Or.inr hx)
   have nsign : b ≠ 43 ∧ b ≠ 45 := by
     refine ⟨?_, ?_⟩ <;> intro e <;> subst e <;> apply h2 <;> refine ⟨hq, ?_⟩
     · exact Or.inl rfl
     · exact Or.inr rfl
-  have hb0 := n38 b List.mem_cons_self
-  obtain ⟨t1, t2, t3⟩ := first_tokenStart b hc nsign.1 nsign.2 hb0.1 hb0.2.1 hb0.2.2
+  have hc' : senClass b = cO ∨ senClass b = c8 ∨ (senClass b = cH ∧ b ≠ 38) := by
+    rcases hc with h | h | h
+    · exact Or.inl h
+    · exact Or.inr (Or.inl h)
+    · exact Or.inr (Or.inr ⟨h, bareByte_h html b (hb b List.mem_cons_self) h⟩)
+  obtain ⟨t1, t2, t3⟩ := first_tokenStart b hc' nsign.1 nsign.2
   rw [hs, List.cons_append, runBytes_cons_ok {} (fun l => step_tokenStart {} rfl st f b l hm t1 t2 t3)]
   obtain ⟨p', h⟩ := token_run {} rfl t { st with tmp := [b], mode := .token }
     { inFast := false, tokFast := true, nlSkipping := false } (p.next false) rest rfl rfl rfl
-    (fun x hx => bare_tokenOk html x (hb x (List.mem_cons_of_mem _ hx)) (n38 x (List.mem_cons_of_mem _ hx)).1
-      (n38 x (List.mem_cons_of_mem _ hx)).2.1 (n38 x (List.mem_cons_of_mem _ hx)).2.2)
+    (fun x hx => bare_tokenOk html x (hb x (List.mem_cons_of_mem _ hx)))
   exact ⟨p', by rw [h]; simp⟩
 
 theorem tokenValue_str (s : Bytes) (h : ¬ reservedWord s) : tokenValue s = .str s := by
@@ -262,11 +256,11 @@ theorem tokenValue_str (s : Bytes) (h : ¬ reservedWord s) : tokenValue s = .str
   simp [h.1, h.2.1, h.2.2]
 
 theorem bare_value (s : Bytes) (html : Bool) (hne : s ≠ []) (hq : senQuoted s html = false)
-    (h1 : ¬ reservedWord s) (h2 : ¬ leadingSign s html) (h3 : ¬ nonTokenByte s html) :
+    (h1 : ¬ reservedWord s) (h2 : ¬ leadingSign s html) :
     parsesTo (valueDoc s html) (.arr [.str (sanitize s)]) := by
   apply parsesTo_of_run _ _ 91 _ rfl (by decide)
   rw [runBytes_cons_ok {} open_arr]
-  obtain ⟨p', h⟩ := bare_run s html { mode := .value, starts := [some 0], stack := [.arrMark] } {} _ [93] rfl hne hq h2 h3
+  obtain ⟨p', h⟩ := bare_run s html { mode := .value, starts := [some 0], stack := [.arrMark] } {} _ [93] rfl hne hq h2
   rw [h]
   rw [runBytes_cons_ok {} (fun l => close_arr_token _ _ l rfl rfl rfl rfl rfl rfl)]
   refine ⟨_, _, _, rfl, rfl, rfl, ?_⟩
@@ -274,11 +268,11 @@ theorem bare_value (s : Bytes) (html : Bool) (hne : s ≠ []) (hq : senQuoted s 
   rw [tokenValue_str s h1, (bare_facts s html hne hq).2.1]
 
 theorem bare_key (s : Bytes) (html : Bool) (hne : s ≠ []) (hq : senQuoted s html = false)
-    (h2 : ¬ leadingSign s html) (h3 : ¬ nonTokenByte s html) :
+    (h2 : ¬ leadingSign s html) :
     parsesTo (keyDoc s html) (.obj [(sanitize s, .int 1)]) := by
   apply parsesTo_of_run _ _ 123 _ rfl (by decide)
   rw [runBytes_cons_ok {} open_obj]
-  obtain ⟨p', h⟩ := bare_run s html { mode := .value, starts := [none], stack := [.obj []] } {} _ [58, 49, 125] rfl hne hq h2 h3
+  obtain ⟨p', h⟩ := bare_run s html { mode := .value, starts := [none], stack := [.obj []] } {} _ [58, 49, 125] rfl hne hq h2
   rw [h]
   rw [runBytes_cons_ok {} (fun l => colon_token _ _ l rfl rfl rfl rfl rfl)]
   rw [runBytes_cons_ok {} (fun l => step_one _ _ l rfl rfl rfl)]
@@ -300,40 +294,41 @@ theorem quoted_form (s : Bytes) (html : Bool) (h : s = [] ∨ senQuoted s html =
     | false => simp [h]
 
 /-- **C10 at string level, value position, partial form**: every byte string that is not one of the
-reserved words, is not written bare with a leading sign and is not written bare with a byte no token
-has, comes back from `[` text `]` as the one string `sanitize s` — never a number, bool, null, sign,
-comment or error. No length bound. -/
-theorem C10_value_partial (s : Bytes) (html : Bool)
-    (h1 : ¬ reservedWord s) (h2 : ¬ leadingSign s html) (h3 : ¬ nonTokenByte s html) :
+reserved words and is not written bare with a leading sign comes back from `[` text `]` as the one string
+`sanitize s` — never a number, bool, null, sign, comment or error. No length bound. -/
+theorem C10_value_partial (s : Bytes) (html : Bool) (h1 : ¬ reservedWord s) (h2 : ¬ leadingSign s html) :
     parsesTo (valueDoc s html) (.arr [.str (sanitize s)]) := by
   by_cases hne : s = []
   · exact quoted_value s html (quoted_form s html (Or.inl hne))
   · cases hq : senQuoted s html with
     | true => exact quoted_value s html (quoted_form s html (Or.inr hq))
-    | false => exact bare_value s html hne hq h1 h2 h3
+    | false => exact bare_value s html hne hq h1 h2
 
 /-- **C10 at string level, key position, partial form**: the reserved words are fine as keys -/
-theorem C10_key_partial (s : Bytes) (html : Bool) (h2 : ¬ leadingSign s html) (h3 : ¬ nonTokenByte s html) :
+theorem C10_key_partial (s : Bytes) (html : Bool) (h2 : ¬ leadingSign s html) :
     parsesTo (keyDoc s html) (.obj [(sanitize s, .int 1)]) := by
   by_cases hne : s = []
   · exact quoted_key s html (quoted_form s html (Or.inl hne))
   · cases hq : senQuoted s html with
     | true => exact quoted_key s html (quoted_form s html (Or.inr hq))
-    | false => exact bare_key s html hne hq h2 h3
+    | false => exact bare_key s html hne hq h2
 
 /-- non-vacuity: strings that meet the hypotheses — `ab` is written bare, `12` is quoted because of
 its first byte, `- \xff` is quoted (a space, invalid UTF-8) although it begins with a sign -/
-example : ¬ reservedWord [97, 98] ∧ ¬ leadingSign [97, 98] false ∧ ¬ nonTokenByte [97, 98] false ∧
-    senQuoted [97, 98] false = false := by
-  refine ⟨by unfold reservedWord; decide, ?_, ?_, by decide +kernel⟩
-  · intro h; exact absurd h.2 (by decide)
-  · intro h; exact absurd h.2 (by decide)
-example : ¬ reservedWord [49, 50] ∧ ¬ leadingSign [49, 50] false ∧ ¬ nonTokenByte [49, 50] false := by
-  refine ⟨by unfold reservedWord; decide, ?_, ?_⟩
-  · intro h; exact absurd h.2 (by decide)
-  · intro h; exact absurd h.2 (by decide)
+example : ¬ reservedWord [97, 98] ∧ ¬ leadingSign [97, 98] false ∧ senQuoted [97, 98] false = false := by
+  refine ⟨by unfold reservedWord; decide, ?_, by decide +kernel⟩
+  intro h; exact absurd h.2 (by decide)
+example : ¬ reservedWord [49, 50] ∧ ¬ leadingSign [49, 50] false := by
+  refine ⟨by unfold reservedWord; decide, ?_⟩
+  intro h; exact absurd h.2 (by decide)
 example : ¬ leadingSign [45, 32, 0xff] false := by
   intro h; exact absurd h.1 (by decide +kernel)
+
+/-- since 9fd0aeb `"a&b"`, `` "`" `` and `"a|b"` come back (they are quoted now) -/
+example : parsesTo (valueDoc [97, 38, 98] false) (.arr [.str (sanitize [97, 38, 98])]) :=
+  C10_value_partial _ _ (by unfold reservedWord; decide) (by intro h; exact absurd h.2 (by decide))
+example : parsesTo (keyDoc [97, 124, 98] false) (.obj [(sanitize [97, 124, 98], .int 1)]) :=
+  C10_key_partial _ _ (by intro h; exact absurd h.2 (by decide))
 
 /-- the full statement: every string, in value and in key position -/
 def C10_string_full : Prop :=
@@ -371,15 +366,13 @@ theorem C10_string_full_false_sign : ¬ C10_string_full := by
   simp only [checkDocs, hd, isArrIntNeg1] at hc
   cases hc
 
-/-- `"-"` as a key and `"a&b"` as a value do not parse at all (C10-leading-sign in key position,
-C10-bare-nontoken-byte) -/
-theorem C10_string_full_false_error : ¬ C10_string_full := by
-  intro h
-  obtain ⟨o, ho, _⟩ := (h [97, 38, 98] false).1
-  have hc : checkDocs (run senTables {} [valueDoc [97, 38, 98] false]) (fun _ => true) = false := by decide +kernel
-  rw [ho] at hc
-  cases hc
+/-- BEFORE 9fd0aeb: `"a&b"` was written bare (`senStringBefore`), and the parser has no token with `&`:
+the document did not parse (was known finding C10-bare-nontoken-byte) -/
+theorem C10_nontoken_before :
+    checkDocs (run senTables {} [91 :: (senStringBefore [97, 38, 98] false ++ [93])]) (fun _ => true) = false := by
+  decide +kernel
 
+/-- `"-"` as a key does not parse at all (C10-leading-sign in key position) -/
 theorem C10_key_full_false_sign : ¬ C10_string_full := by
   intro h
   obtain ⟨o, ho, _⟩ := (h [45] false).2
